@@ -1,0 +1,24 @@
+//go:build verif
+// +build verif
+
+package filetracker
+
+// VerifNewTFile builds a tracker with no backing files (runtime verification only).
+func VerifNewTFile() *TFile {
+	return newTFile(nil, nil, "verif")
+}
+
+// VerifClone copies the tracker state (the radix tree is immutable).
+func (t *TFile) VerifClone() *TFile {
+	t.lock.Lock()
+	defer t.lock.Unlock()
+	return &TFile{name: t.name, tracker: t.tracker}
+}
+
+// VerifTrackWrite exposes trackWrite.
+func (t *TFile) VerifTrackWrite(offset, length int64) { t.trackWrite(offset, length) }
+
+// VerifGetRangeToRead exposes getRangeToRead; the boolean is true for modified (mutable) data.
+func (t *TFile) VerifGetRangeToRead(offset, length int64) (int64, bool) {
+	return t.getRangeToRead(offset, length)
+}
